@@ -89,6 +89,7 @@ func c12Histories(r *rng, tier string, each func(ops []string, label string)) {
 		}
 		each(ops, "random/len4-12")
 	}
+	c11StarHistories(each)
 	// registrations from a backend whose reflection stream ends with an error status after everything was answered
 	for _, a := range c11Alphabet {
 		each([]string{a, "R0.2~", "D0"}, "flaky-reflection-end")
